@@ -58,7 +58,7 @@ func findFilter(p *core.Prog, r *core.Report, rule string) *filterInfo {
 	}
 	// every rule runs on the package's inlined views: code in a helper is judged with the locks its caller holds
 	for _, v := range pkgViews(p, "util/netutil") {
-		fi.AllFuncs = append(fi.AllFuncs, sx.WithClosures(v.Fn)...)
+		fi.AllFuncs = append(fi.AllFuncs, withLiveClosures(v.Fn)...)
 	}
 	return fi
 }
@@ -334,4 +334,40 @@ func ordinalOf(ref sx.FieldRef, p *core.Prog) int {
 		}
 	})
 	return idx * 100
+}
+
+// withLiveClosures: fn and the anonymous functions nested in it that are still used — in an inlined view a closure
+// whose only call was expanded in place (`f.update(func() { … })` with update expanded) is left behind as a
+// MakeClosure nobody refers to; judged on its own it would be judged without the caller's context (locks held).
+func withLiveClosures(fn *ssa.Function) []*ssa.Function {
+	out := []*ssa.Function{fn}
+	for _, a := range fn.AnonFuncs {
+		live, made := false, false
+		sx.Instrs(fn, func(in ssa.Instruction) {
+			mc, ok := in.(*ssa.MakeClosure)
+			if !ok || mc.Fn != ssa.Value(a) {
+				// a closure without free variables is referred to as a plain function value
+				var buf [8]*ssa.Value
+				for _, op := range in.Operands(buf[:0]) {
+					if op != nil && *op == ssa.Value(a) {
+						made, live = true, true
+					}
+				}
+				return
+			}
+			made = true
+			if mc.Referrers() != nil {
+				for _, u := range *mc.Referrers() {
+					if _, isDbg := u.(*ssa.DebugRef); !isDbg {
+						live = true
+					}
+				}
+			}
+		})
+		_ = made
+		if live {
+			out = append(out, withLiveClosures(a)...)
+		}
+	}
+	return out
 }
